@@ -105,6 +105,9 @@ class MapperLab:
             _, nm, i, v = what
             if i == 0 and v == 0 and ENTRY_SYM.match(nm):
                 I.apply_env(st, {(nm, j): 0 for j in range(1, 64)})
+            elif i != 0 and v == 1 and ENTRY_SYM.match(nm) and st.env.get((nm, 0)) is None:
+                # a set bit makes the entry non-zero, hence present
+                I.apply_env(st, {(nm, 0): 1})
 
     def _m_zero(self, ctx):
         ref = ctx.args[0]
